@@ -4,3 +4,6 @@ jsonschema.validate(json.load(open('/verif/MANIFEST.json')), json.load(open('/ro
 s = json.load(open('/root/.vp/EVIDENCE.schema.json'))
 for f in sorted(glob.glob('/verif/evidence/*.json')):
     jsonschema.validate(json.load(open(f)), s); print(f, 'valid')
+    d = json.load(open(f)); c = d['coverage']
+    if d['level'] == 'proof' and 'obligations' in c and c['obligations'] != c['discharged']:
+        print(f, 'PROOF-LEVEL COUNTS DIFFER', c['obligations'], c['discharged']); sys.exit(1)
